@@ -532,6 +532,13 @@ func (s *Session) Request(input string) (st Step) {
 		}
 		s.Pending = []app.Instr{{Op: refdec.MOVE, Sym: refdec.BS(s.App.RootName())}}
 	}
+	if s.App.Cfg.ResetOnEmptyInput && input == "" && len(s.Stack) > 0 && !s.Flags[6] {
+		// Config.ResetOnEmptyInput: "purges cache and restart state execution at root on
+		// empty input" — every level is left and the entry node is entered afresh (a
+		// blocked session stays blocked)
+		s.restart()
+		s.Pending = []app.Instr{{Op: refdec.MOVE, Sym: refdec.BS(s.App.RootName())}}
+	}
 	s.started = true
 	if len(s.Pending) == 0 {
 		st.ExecErr = true
@@ -586,6 +593,13 @@ func (s *Session) Request(input string) (st Step) {
 			st.ErrWhy = err.Error()
 			s.Pending = nil
 			s.ended = true
+			if s.Persisted {
+				// engine-per-request: the failed request is saved without pending code, and
+				// the next request starts the session over at the entry node (client flags
+				// and language kept)
+				s.reading, s.matched, s.waiting = false, false, false
+				return
+			}
 			st.Bail = "after an execution error nothing is specified"
 			return
 		}
